@@ -17,7 +17,7 @@ from .. import elections as el
 
 ID = "C06"
 ORACLE = "Oracle.C06"
-PROPS = "Props/C06.v"
+PROPS = ["Props/C06.v", "Props/C06mes.v"]
 LEVEL = "proof"
 SHARD = 60
 
